@@ -6,7 +6,7 @@ from .. import gen, lib, ref
 from ..lib import call
 
 PROP = "C17"
-PLAN = {"quick": (2400, 300), "thorough": (224 * 224 + 30000, 3000)}
+PLAN = {"quick": (2400, 300), "thorough": (224 * 224 + 10000, 3000)}
 LARGE = (0.03, 20)  # (share, largest size) of the large class of gen.kv: 17+ control points, degree up to 8
 STEP_BUDGET = 20_000_000  # loop line events per outermost call: ten times the default, for the large class
 RULE = ("case = pair of knot vectors on a common interval: equal / different degrees x shared / distinct interior knots x "
